@@ -62,6 +62,8 @@ PROPS = {
             {"stream": "roots", "n": {"quick": 6000, "thorough": 100000}},
             {"stream": "translog", "n": {"quick": 6000, "thorough": 100000}},
             {"stream": "strings", "n": {"quick": 6000, "thorough": 100000}},
+            {"stream": "specials", "n": {"quick": 1, "thorough": 3}},
+            {"stream": "alias", "ops": ["add", "mul", "quo", "rem", "reduce", "sqrt", "cbrt", "quantize"], "n": {"quick": 2000, "thorough": 30000}},
         ],
         # the property is a decidable predicate of each returned value: it is evaluated on every
         # implementation output; no projection of the model correspondence is needed to decide it
@@ -157,7 +159,7 @@ PROPS.update({
     },
     "C11": {
         "level": "other",
-        "lean_modules": ["ApdVerif.Props.C11", "ApdVerif.Props.C11Settle", "ApdVerif.Props.C11Sqrt"],
+        "lean_modules": ["ApdVerif.Props.C11", "ApdVerif.Props.C11Settle", "ApdVerif.Props.C11Sqrt", "ApdVerif.Props.C11SqrtExact", "ApdVerif.Props.C11Cbrt"],
         "streams": [{"stream": "roots", "n": {"quick": 20000, "thorough": 400000}},
                     # the same oracles judge every aliased outcome (d == x, heap-backed operands, junk destinations)
                     {"stream": "alias", "ops": ["sqrt", "cbrt"], "n": {"quick": 3000, "thorough": 40000}, "projections": []}],
@@ -169,7 +171,8 @@ PROPS.update({
         "level": "proof",
         "lean_modules": ["ApdVerif.Props.C13", "ApdVerif.Props.C14", "ApdVerif.Props.C13Decompose"],
         "theorem_prefixes": ["C13_"],
-        "streams": [{"stream": "text", "n": {"quick": 20000, "thorough": 400000}}],
+        "streams": [{"stream": "text", "n": {"quick": 20000, "thorough": 400000}},
+                    {"stream": "strings", "n": {"quick": 8000, "thorough": 100000}}],
         "projections": ["text", "format", "parse"],
         "oracle_tags": ["C13"],
         "trusted_extra": ["SetFloat64/Float64 rely on strconv's shortest formatting and correctly rounded parsing (contract assumed); the stream checks the bit-exact round trip and the shortest-coefficient claim on generated bit patterns"],
